@@ -17,7 +17,7 @@
 mod options;
 mod progress;
 
-use std::path::PathBuf;
+use std::path::{Component, PathBuf};
 use std::{result, thread};
 use std::sync::Arc;
 
@@ -136,7 +136,9 @@ fn main() -> Result<()> {
             .next_back()
             .ok_or(XcpError::InvalidSource("Failed to find source directory name."))?;
 
-        let target_base = if dest.exists() && dest.is_dir() && !opts.no_target_directory {
+        // Like cp, `dir/..` is copied into the destination itself:
+        // `dest/..` is the destination's parent, not a place below it.
+        let target_base = if dest.exists() && dest.is_dir() && !opts.no_target_directory && sourcedir != Component::ParentDir {
             dest.join(sourcedir)
         } else {
             dest.to_path_buf()
